@@ -581,7 +581,13 @@ void h_hdr_err_burst(void)
     ASSUME(RPW_BURST_STRADDLE == 2 || (RPW_BURST_STRADDLE ? straddles : !straddles));
   }
   int rc2 = parse_header(frame, h2, 16);
+#if RPW_BURST_STRADDLE == 2 && !RPW_BURST_SOLID
+  /* the clause exactly as property C07 states it (KNOWN FINDING: it does not
+   * hold, see targets/C07.json) */
+  CHECK(rc2 == -EILSEQ, "C07 clause as stated: every non-zero error pattern inside every 16-bit window over the protected header fields is classified as bad header checksum");
+#else
   CHECK(rc2 == -EILSEQ, "every error burst of up to 16 bits in the protected header fields is classified as bad header checksum");
+#endif
   VERIF_CANARY();
 }
 
